@@ -30,18 +30,36 @@ import (
 // B: transaction protocol. Chains A pays watched -> B spends A -> C spends B
 //    (+ unrelated txs) through MatchTxAndUpdate, checked against ground truth
 //    (what was watched) and against the bit-exact protocol model.
+// L: lifecycle. Random interleavings of NewFilter / LoadFilter / Reload / Unload /
+//    Add* / IsLoaded / Matches* / MatchTxAndUpdate on ONE Filter instance with the
+//    model replayed alongside (blank -> Reload(populated), populated ->
+//    Reload(blank) -> Reload(populated), Unload -> Reload, ...).
+// O: order. One tx set presented in several orders and repeatedly (child before
+//    parent, retests after the filter was updated by another tx's match, after
+//    filteradd, after a new filterload) through bloom.TxFilter, the server's
+//    filter.Filter for every filter type embedding it, and filter.NewMerkleBlock.
+//    L and O live in c39_seq.go.
 
 func init() {
 	kit.Register(&kit.Spec{
 		ID:               "C39",
-		Rule:             "A: filters over element counts 0..5000, fp rates 1e-12..2 (log-uniform + edges), tweaks {0,1,2^31,2^32-1,random}, made by NewFilter or loaded from a reference-built FilterLoad with size in {0,1,2,..,36000} and hash count in {0,1,..,50}; elements of length 0..520, hashes, outpoints; B: tx chains with watched program hashes / txids / outpoints, output indexes up to 300, normal and side-chain (tweak 2^32-1, tx-type list) filters. distinct = distinct (filter parameters, element set digest); non-trivial = the filter has a non-empty bit array and at least one hash function, i.e. membership is really decided by bits",
+		Rule:             "A: filters over element counts 0..5000, fp rates 1e-12..2 (log-uniform + edges), tweaks {0,1,2^31,2^32-1,random}, made by NewFilter or loaded from a reference-built FilterLoad with size in {0,1,2,..,36000} and hash count in {0,1,..,50}; elements of length 0..520, hashes, outpoints; B: tx chains with watched program hashes / txids / outpoints, output indexes up to 300, normal and side-chain (tweak 2^32-1, tx-type list) filters; L: call sequences (6..36 calls after the constructor, three scripted openings + random) on one bloom.Filter instance over messages built by the reference client (size 0..2000, k 0..20); O: a 10-tx family (parent/child/grand-child, unrelated, matching only after filteradd) presented in 7 scripted orders + a random tail of presentations, filteradds, re-loads and merkle blocks through 8 server-side filter objects; distinct (L, O) = digest of the call trace, non-trivial = at least one must-match answer was decided by set bits. distinct (A, B) = distinct (filter parameters, element set digest); non-trivial = the filter has a non-empty bit array and at least one hash function, i.e. membership is really decided by bits",
 		Shards:           func(tier string) int { return 8 },
 		Run:              runC39,
 		FatalIsViolation: true,
 		Require: []string{"A_filters_newfilter", "A_filters_loaded", "A_elements_added", "A_membership_checks", "A_true_negatives",
 			"A_bitarrays_compared", "A_limit_size0", "A_limit_size1", "A_limit_sizemax", "A_limit_k0", "A_limit_k1", "A_limit_kmax",
 			"A_tweak_zero", "A_tweak_max", "A_elemlen_0", "A_elemlen_520", "B_chains", "B_txs_matched", "B_txs_not_matched",
-			"B_spender_matched_via_inserted_outpoint", "B_sidechain_filters", "B_sidechain_type_matches", "B_big_index_outputs"},
+			"B_spender_matched_via_inserted_outpoint", "B_sidechain_filters", "B_sidechain_type_matches", "B_big_index_outputs",
+			"lifecycle_sequences", "lifecycle_ops", "lifecycle_reload", "lifecycle_unload", "lifecycle_add", "lifecycle_isloaded", "lifecycle_matchtx", "lifecycle_matchtx_must_match",
+			"lifecycle_reload_on_blank_instance", "lifecycle_reload_on_blank_instance:newfilter", "lifecycle_reload_on_blank_instance:loadfilter-blank",
+			"lifecycle_reload_on_blank_instance:reload-blank", "lifecycle_reload_on_blank_instance:newfilter+unload", "lifecycle_unload_then_reload",
+			"lifecycle_reload_populated_over_populated", "lifecycle_must_match_checks", "lifecycle_true_negatives",
+			"order_sequences", "order_presentations", "order_must_match", "order_not_matched", "order_child_before_parent_then_retested",
+			"order_child_before_parent_then_retested_must_match", "order_parent_before_child", "order_retest_after_filter_update",
+			"order_must_match:retest-after-filter-update", "order_must_match:retest-after-filteradd", "order_must_match:retest-after-filterload",
+			"order_must_match:retest-of-matched-tx", "order_class:retest-unchanged-filter", "order_filteradd", "order_filterload_again", "order_merkleblock_presentations",
+			"order_via:bloom.TxFilter", "order_via:filter.Filter/FTBloom", "order_via:filter.Filter/FTDPOS", "order_via:filter.Filter/FTCustomID"},
 		Assumptions: []string{"the reference client (MurmurHash3 x86_32 + BIP37 bit addressing re-stated in props/c39_model.go) is what SPV clients implement",
 			"the filter protocol is the one ELA nodes implement: outpoints of matching outputs are always inserted (FilterLoad.Flags is ignored), side-chain filters (tweak 2^32-1) match by tx type or paid program hash only and are never updated"},
 	})
@@ -608,6 +626,9 @@ func runC39(c *kit.Ctx) {
 				"txA": fmt.Sprintf("%x", rtA.hash[:8]), "watched_output_index": wi, "B_pays_watched": bPaysWatched})
 		}
 	}
+
+	// ================= L, O: sequences on one filter object (props/c39_seq.go) =================
+	runC39Sequences(c, types)
 }
 
 func trunc(b []byte) []byte {
